@@ -3,9 +3,10 @@
    amplitudes_true_Q, mean_amps_Q, waveform_durations_Q, get_depths_Q are the model of Model.v (the
    operation sequence of phylib's code) instantiated with exact rational operations. *)
 From Coq Require Import ZArith QArith Qabs List Bool Sorted Lia.
+(* C05 (for the link theorems) first, C09 last: unqualified names are C09's, C05's are written qualified *)
+From PV Require Import C05.Model C05.Spec C05.Props Base.NpSort.
 From PV Require Import C09.Model C09.Spec C09.Proofs C09.Proofs2 C09.Proofs3 C09.Proofs4 C09.Proofs5.
 From PV Require Import C09.Spec2 C09.Proofs6 C09.Link.
-From PV Require C05.Model C05.Spec C05.Props Base.NpSort.
 Import ListNotations.
 Open Scope Z_scope.
 
@@ -365,3 +366,22 @@ Example C09_ex_link :
        (C05.Model.default_request 0)) = Some [28; 10] /\
   channels 4 [ex_link_t] = Some [2].
 Proof. repeat split; vm_compute; reflexivity. Qed.
+
+(* ---- definedness: the model returns exactly inside the shape guards (= where NumPy does not raise) ---- *)
+Theorem C09_defined_iff : forall (i : amp_in) (f : QN),
+  (exists o, amplitudes_true_Q i f = Some o) <-> wf_amp i = true.
+Proof.
+  intros i f. split; [|apply amplitudes_true_total].
+  intros [o H]. now destruct (amplitudes_true_Q_unfold _ _ _ H).
+Qed.
+Print Assumptions C09_defined_iff.
+
+Theorem C09_channels_defined_iff : forall (nc : nat) (data : list mat) (rate : QN),
+  ((exists out, channels nc data = Some out) <-> data_ok nc data = true) /\
+  ((exists out, waveform_durations_Q nc data rate = Some out) <-> data_ok nc data = true).
+Proof.
+  intros nc data rate. unfold channels, waveform_durations_Q, waveform_durations.
+  destruct (data_ok nc data); split; split; intros H;
+    first [reflexivity | eexists; reflexivity | discriminate | (destruct H; discriminate)].
+Qed.
+Print Assumptions C09_channels_defined_iff.
